@@ -311,6 +311,8 @@ fn decode_url(t: &mut Tape) -> UrlCase {
     let userinfo = if t.chance(1, 6) { Some(t.choose(&["user", "user:pass", "u%40x", "a:b:c", "üser", "example.org", "x:"]).to_string()) } else { None };
     let port = if t.chance(1, 5) { Some(t.choose(&[80u16, 443, 8080, 1, 65535])) } else { None };
     let tail = format!("{}{}{}", gen::path(t), if t.chance(1, 3) { format!("?{}", gen::query(t)) } else { String::new() }, if t.chance(1, 6) { "#frag@x:1/".to_string() } else { String::new() });
+    // no path at all: the query or the fragment follows the authority directly (and may hold '@' / ':')
+    let tail = if t.chance(1, 15) { t.choose(&["?contact=admin@tracker.net", "?@", "#@x", "?a:b@c.d/e", "#u:p@h/"]).to_string() } else { tail };
     // characters just above the stripped range at the very end of the URL are part of it
     let tail = if t.chance(1, 15) { format!("{}{}", tail, t.choose(&["\u{7f}", "\u{7f}\u{7f}", "!", "\u{a0}"])) } else { tail };
     let special = ["http", "https", "ws", "wss", "ftp", "gopher"].contains(&scheme.to_ascii_lowercase().as_str());
